@@ -409,6 +409,9 @@ def project(tag):
 def cargo(d, args, timeout=3000):
     env = dict(os.environ)
     env["CARGO_NET_OFFLINE"] = "true"
+    for k in ("CARGO_TARGET_DIR", "CARGO_BUILD_TARGET_DIR", "CARGO_BUILD_TARGET", "RUSTFLAGS", "CARGO_ENCODED_RUSTFLAGS",
+              "CARGO_BUILD_RUSTFLAGS", "CARGO_PROFILE_DEV_DEBUG_ASSERTIONS", "CARGO_PROFILE_RELEASE_DEBUG_ASSERTIONS"):
+        env.pop(k, None)
     p = subprocess.run(["cargo"] + args, cwd=d, env=env, stdout=subprocess.PIPE, stderr=subprocess.PIPE, timeout=timeout)
     return p.returncode, p.stdout.decode("utf-8", "replace"), p.stderr.decode("utf-8", "replace")
 
